@@ -11,6 +11,9 @@ import (
 	"time"
 )
 
+// ConfirmRuns is how many times a stuck case is re-run alone before it is believed.
+var ConfirmRuns = 2
+
 // CaseResult is what a worker reports for one case.
 type CaseResult struct {
 	Type       string           `json:"type"` // start | done
@@ -78,7 +81,7 @@ func RunSharded(r *Run, n int, workerArgs []string, caseTimeout time.Duration, m
 			panic(err)
 		}
 		var stderrBuf strings.Builder
-		cmd.Stderr = &limitedWriter{&stderrBuf, 4000}
+		cmd.Stderr = &limitedWriter{&stderrBuf, 40000}
 		if err := cmd.Start(); err != nil {
 			panic(err)
 		}
@@ -103,7 +106,7 @@ func RunSharded(r *Run, n int, workerArgs []string, caseTimeout time.Duration, m
 				if !ok {
 					err := cmd.Wait()
 					if cur >= 0 {
-						return cur, curLabel, fmt.Sprintf("worker died (%v): %s", err, tail(stderrBuf.String(), 600))
+						return cur, curLabel, fmt.Sprintf("worker died (%v): %s", err, tail(stderrBuf.String(), 30000))
 					}
 					if err != nil {
 						fmt.Fprintf(os.Stderr, "harness error: worker failed outside a case: %v\n%s\n", err, stderrBuf.String())
@@ -149,7 +152,7 @@ func RunSharded(r *Run, n int, workerArgs []string, caseTimeout time.Duration, m
 				}
 				// re-run the stuck case alone, up to 2 more times, before believing it
 				confirmed := true
-				for attempt := 0; attempt < 2; attempt++ {
+				for attempt := 0; attempt < ConfirmRuns; attempt++ {
 					s2, _, _ := runWorkerSingle(self, workerArgs, stuck, caseTimeout, memKB, func(res CaseResult) {
 						mu.Lock()
 						merge(res)
